@@ -44,7 +44,8 @@ func NewReader(r io.Reader) io.ReadCloser {
 		// bufio.NewReader would put a second buffer in front of a small one
 		rr.rBuf = ur
 	} else {
-		rr.rBuf = bufio.NewReader(r)
+		rr.own = bufio.NewReader(r)
+		rr.rBuf = rr.own
 	}
 	return rr
 }
@@ -55,7 +56,8 @@ type decompressor struct {
 	readPos       int
 	historyBuffer [2*historySize + lookAhead]uint8
 	r             io.Reader
-	rBuf          *bufio.Reader
+	rBuf          *bufio.Reader // the buffer in use: the caller's *bufio.Reader, or own
+	own           *bufio.Reader // private buffer; the only one this Reader ever re-targets
 	err           error
 	peekSize      int
 	eof           bool
@@ -66,11 +68,12 @@ func (r *decompressor) Reset(under io.Reader, _ []byte) error {
 	if ur, ok := under.(*bufio.Reader); ok {
 		r.rBuf = ur
 	} else {
-		if r.rBuf != nil {
-			r.rBuf.Reset(under)
+		if r.own != nil {
+			r.own.Reset(under)
 		} else {
-			r.rBuf = bufio.NewReader(under)
+			r.own = bufio.NewReader(under)
 		}
+		r.rBuf = r.own
 	}
 
 	r.peekSize = 0
